@@ -188,6 +188,10 @@ func (x *Runner) GenCase(rng *hx.Rng, sub uint64, typeLine string, p Plan) {
 					x.line("canon " + flagName(val) + " " + text)
 				}
 			}
+			if !p.RoundTrip && val && len(b) <= 70000 {
+				// the unmutated encoding itself: an input whose stamps are known to lie in the range when the value's do
+				x.line("dec v " + hexs(b))
+			}
 			if !seenEnc[string(b)] {
 				seenEnc[string(b)] = true
 				encs = append(encs, b)
